@@ -94,6 +94,8 @@ class State:
         s.pc = list(self.pc)
         s.nalloc = self.nalloc
         s.heap0 = self.heap0
+        if "dead" in self.__dict__:
+            s.dead = self.dead
         return s
 
     def arr(self, name: str):
@@ -109,7 +111,16 @@ class State:
     def assume(self, c):
         if z3.is_true(c):
             return
+        ids = self.__dict__.get("_pc_ids")
+        if ids is None or len(ids) > len(self.pc) + 8 or self.__dict__.get("_pc_len") != len(self.pc):
+            ids = {x.get_id() for x in self.pc}
+        i = c.get_id()
+        if i in ids:
+            self._pc_ids, self._pc_len = ids, len(self.pc)
+            return
+        ids.add(i)
         self.pc.append(c)
+        self._pc_ids, self._pc_len = ids, len(self.pc)
 
     def pc_term(self):
         return z3.And(self.pc) if self.pc else z3.BoolVal(True)
